@@ -1,5 +1,6 @@
 import Verif.Model.Conc
 import Verif.Model.AdminSlice
+import Verif.Model.Reload
 import Verif.Generated.Locks
 /-!
   C19 — concurrent traffic and administration are race-free and atomically visible.
@@ -565,3 +566,35 @@ theorem walk_shift_partial :
 
 example : (walk removeSwap 5 0 ⟨id, 5⟩).map (·.len) = some 0 := by decide
 end Verif.AdminSlice
+
+/-! ## Reloading the configuration: which authority's CRL generator runs afterwards -/
+namespace Verif.Reload
+
+/-- after a reload the new authority decides the requests and its generator is the only one running -/
+theorem reload_hands_over (p : P) (new : Nat) (h : p.running = [p.cur]) (hn : new ≠ p.cur) :
+    exec new reloadAsCoded p = ⟨new, [new]⟩ := by
+  simp [exec, reloadAsCoded, step, h, hn]
+
+/-- any number of reloads (fresh authorities): exactly the serving authority's generator runs -/
+theorem reloads_inv (ns : List Nat) (p : P) (h : p.running = [p.cur]) (hf : ∀ n ∈ ns, n ≠ p.cur)
+    (hd : ns.Pairwise (· ≠ ·)) : (reloads ns p).running = [(reloads ns p).cur] := by
+  induction ns generalizing p with
+  | nil => simpa [reloads] using h
+  | cons n ns ih =>
+    have hn : n ≠ p.cur := hf n (by simp)
+    rw [reloads, reload_hands_over p n h hn]
+    apply ih
+    · rfl
+    · intro m hm
+      have := (List.pairwise_cons.mp hd).1 m hm
+      exact fun e => this e.symm
+    · exact (List.pairwise_cons.mp hd).2
+
+/-- closing after the assignment closes the new authority: the generator of the configuration nobody serves any more
+    keeps writing the shared CRL, the new configuration's generator never runs -/
+theorem reload_close_last_keeps_old (p : P) (new : Nat) (h : p.running = [p.cur]) (hn : new ≠ p.cur) :
+    exec new reloadCloseLast p = ⟨new, [p.cur]⟩ := by
+  simp [exec, reloadCloseLast, step, h, Ne.symm hn]
+
+example : reloads [1, 2, 3] ⟨0, [0]⟩ = ⟨3, [3]⟩ := by decide
+end Verif.Reload
